@@ -28,7 +28,7 @@ import (
 func init() { hk.Register("c33", Run) }
 
 type Op struct {
-	K    string `json:"k"`    // create droptable put del addcol dropcol commit branch checkout tag merge
+	K    string `json:"k"`    // create droptable put putrev del addcol dropcol commit branch checkout tag merge mergeff
 	T    int    `json:"t"`    // table
 	Cols []int  `json:"cols"` // create: column numbers
 	Pk   int    `json:"pk"`
@@ -312,6 +312,50 @@ func Run(raw json.RawMessage) (any, error) {
 				vs = append(vs, cellSQL(v))
 			}
 			r = s.Exec(fmt.Sprintf("REPLACE INTO %s VALUES (%s)", tname(op.T), strings.Join(vs, ",")))
+		case "putrev": // write through the revision database name `db/<b>` (b: a branch, possibly also the name of a tag)
+			w, isBranch := working[op.B]
+			var cols []int
+			ti := -1
+			for i, tb := range w {
+				if tb.T == op.T {
+					cols, ti = tb.Cols, i
+				}
+			}
+			if !isBranch || ti < 0 || len(cols) > len(op.Vals) {
+				r.Err = "harness: putrev does not fit"
+				break
+			}
+			vs := []string{strconv.Itoa(op.Pk)}
+			for _, v := range op.Vals[:len(cols)] {
+				vs = append(vs, cellSQL(v))
+			}
+			r = s.Exec(fmt.Sprintf("REPLACE INTO `%s/%s`.%s VALUES (%s)", db, op.B, tname(op.T), strings.Join(vs, ",")))
+			if r.Err == "" {
+				// the branch's recorded working set: the same upsert applied to the recorded rows
+				pk := op.Pk
+				row := []*int{&pk}
+				row = append(row, op.Vals[:len(cols)]...)
+				rows := [][]*int{}
+				done := false
+				for _, old := range w[ti].Rows {
+					if *old[0] == op.Pk {
+						rows = append(rows, row)
+						done = true
+					} else {
+						if !done && *old[0] > op.Pk {
+							rows = append(rows, row)
+							done = true
+						}
+						rows = append(rows, old)
+					}
+				}
+				if !done {
+					rows = append(rows, row)
+				}
+				nw := append([]Tab{}, w...)
+				nw[ti] = Tab{T: op.T, Cols: cols, Rows: rows}
+				working[op.B] = nw
+			}
 		case "del":
 			r = s.Exec(fmt.Sprintf("DELETE FROM %s WHERE pk = %d", tname(op.T), op.Pk))
 		case "addcol":
@@ -428,8 +472,8 @@ func Run(raw json.RawMessage) (any, error) {
 		switch q.Kind {
 		case "asof":
 			r = s.Exec(fmt.Sprintf("SELECT * FROM %s AS OF '%s'", tname(q.T), revString(*q, obs.Commits)))
-		case "revdb":
-			r = s.Exec(fmt.Sprintf("SELECT * FROM `%s/%s`.%s", db, revString(*q, obs.Commits), tname(q.T)))
+		case "revdb": // on the second session, which never checked anything out (no cached revision databases)
+			r = s2.Exec(fmt.Sprintf("SELECT * FROM `%s/%s`.%s", db, revString(*q, obs.Commits), tname(q.T)))
 		case "userevdb":
 			r = s2.Exec(fmt.Sprintf("USE `%s/%s`", db, revString(*q, obs.Commits)))
 			if r.Err == "" {
